@@ -41,7 +41,73 @@ def c17(k, ctx):
                        "indices passed to the matrix are in range (out-of-range panics are documented behaviour)"]
 
 
-PIPELINES = {"C17": c17}
+def c02(k, ctx):
+    ctx.rule = ("one case = one parity-check matrix with its from_h verdict and (message, codeword) pairs; exhaustive over all "
+                "binary r x n matrices up to 3x4 (quick) / 3x5 (thorough) plus seeded random matrices up to 12x30 in the classes "
+                "staircase / near-staircase / dense / singular tail / square; non-trivial = distinct matrices whose tail is not the identity pattern "
+                "(counted as distinct (rows, n) with at least one off-diagonal one in the parity part)")
+    ctx.tlc_mc("MC_Encoder", "MC_Encoder_thorough.cfg" if ctx.thorough else "MC_Encoder.cfg")
+    ctx.vh("gen", "i2s")
+    recs, rej = ctx.validate("Trace_C02")
+    ctx.require_events("Enc")
+    for r in recs:
+        if r["o"] == "ok":
+            kk = r["n"] - r["r"]
+            if any((c >= kk and c - kk != j) for j, row in enumerate(r["rows"]) for c in row):
+                ctx.nontrivial_keys.add(k.key(r["rows"], r["n"]))
+    ctx.extra["accepted"] = sum(1 for r in recs if r.get("acc"))
+    ctx.extra["refused"] = sum(1 for r in recs if r.get("acc") is False)
+    ctx.extra["certificate_checked"] = sum(1 for r in recs if r.get("cert", {}).get("kind") in ("inv", "ker"))
+    ctx.exhaustive = True
+    ctx.samples = [k.sample_case(recs, 100), k.sample_case(recs, recs[-1]["i"])]
+    ctx.assumptions = ["TLC 1.8 + Json/IOUtils", "for r > 7 the (non-)invertibility witness comes from the harness oracle and is VERIFIED by TLC (T*W = I or T*x = 0)",
+                       "exhaustive part enumerated by the harness (same finite set TLC enumerates in MC_Encoder)"]
+
+
+def c09(k, ctx):
+    ctx.rule = ("one case = one matrix through parity_to_systematic (+ Encoder::from_h on the result); exhaustive over all r x n up to 3x4 "
+                "(quick) / 3x5, 2x6, 4x4 (thorough) plus seeded random up to 12x30: full rank, deficient by construction, square, zero/duplicate "
+                "columns, pivots at the far right; non-trivial = distinct matrices that are not already in systematic form (tail not invertible "
+                "as given, or rank deficient), counted as distinct (rows, n) whose verdict is notfullrank or whose result differs from the input")
+    ctx.tlc_mc("MC_Systematic", "MC_Systematic_thorough.cfg" if ctx.thorough else "MC_Systematic.cfg")
+    ctx.tlc_mc("MC_Systematic", "MC_Systematic_neg.cfg", expect_violation=True)   # the as-found assertion placement (D5)
+    ctx.vh("gen", "i2s")
+    recs, rej = ctx.validate("Trace_C09")
+    ctx.require_events("Sys")
+    for r in recs:
+        if r["o"] == "ok" and (r["v"] != "ok" or r["res"] != r["rows"]):
+            ctx.nontrivial_keys.add(k.key(r["rows"], r["n"]))
+    ctx.extra["verdicts"] = {v: sum(1 for r in recs if r.get("v") == v) for v in ("ok", "notfullrank", "overdetermined")}
+    ctx.extra["panics"] = sum(1 for r in recs if r["o"] != "ok")
+    ctx.exhaustive = True
+    ctx.samples = [k.sample_case(recs, 200), k.sample_case(recs, recs[-1]["i"])]
+    ctx.assumptions = ["TLC 1.8 + Json/IOUtils", "for r > 7 rank witnesses come from the harness oracle and are VERIFIED by TLC"]
+
+
+def c11(k, ctx):
+    ctx.rule = ("one case = one (graph, root) with bfs distances and local girth for 9 bounds, or one graph with girth for 9 bounds; "
+                "exhaustive over all bipartite graphs 3x3 and 2x4 (+ every 11th 3x4) in quick, 3x4, 4x3, 2x5 and every 7th 4x4 in thorough, "
+                "every root; seeded random graphs up to 8x10 (forests, unicyclic, dense, disconnected, cycle + pendant path, two cycles "
+                "sharing a node); non-trivial = distinct (graph, root) where the graph has at least one cycle")
+    ctx.tlc_mc("MC_Bfs", "MC_Bfs_thorough.cfg" if ctx.thorough else "MC_Bfs.cfg")
+    ctx.tlc_mc("MC_Bfs", "MC_Bfs_neg.cfg", expect_violation=True)       # first-collision local girth (as found, D3)
+    ctx.tlc_mc("MC_Bfs", "MC_Bfs_asfound.cfg")                          # ... which is still a lower bound; girth and bfs exact
+    ctx.vh("gen", "i2s")
+    recs, rej = ctx.validate("Trace_C11")
+    ctx.require_events("Node", "Girth")
+    cyc = set()
+    for r in recs:
+        if r["e"] == "Girth" and r["o"] == "ok" and r["g"][0][1] != -1:
+            cyc.add(k.key(r["rows"], r["nc"]))
+    for r in recs:
+        if r["e"] == "Node" and k.key(r["rows"], r["nc"]) in cyc:
+            ctx.nontrivial_keys.add(k.key(r["rows"], r["nc"], r["root"]))
+    ctx.exhaustive = True
+    ctx.samples = [k.sample_case(recs, 300), k.sample_case(recs, recs[-1]["i"])]
+    ctx.assumptions = ["TLC 1.8 + Json/IOUtils", "harness reports Option<usize> as -1/value verbatim"]
+
+
+PIPELINES = {"C11": c11, "C02": c02, "C09": c09, "C17": c17}
 NOT_YET = {}
 
 
